@@ -90,7 +90,7 @@ func c03ParseCfg(c, objs Sx) (*c03Cfg, bool) {
 		table: c.Nth(12).Int(),
 	}
 	if g.bs <= 0 || g.bs > 1024 || g.sector < 1 || g.bs%g.sector != 0 || g.old > 4 || g.cur > 4 || g.nw < 1 || g.nw > 4 ||
-		g.spare > 4 || g.table < 16 || g.table > 1024 || (g.mutable && g.nw != 1) || (g.mutable && g.hier) {
+		g.spare < 1 || g.spare > 4 || g.table < 16 || g.table > 1024 || (g.mutable && g.nw != 1) || (g.mutable && g.hier) {
 		return nil, false
 	}
 	if objs.Len() == 0 || objs.Len() > 24 {
@@ -371,16 +371,21 @@ func (b *c03BL) Put(index int, size int64) local.BlockListPutWriter {
 	return func(buf buffer.Buffer) local.BlockListPutFinalizer {
 		f := w(buf)
 		return func() (int64, error) {
+			// The finalizer may wake the put loop, whose next harness call
+			// (NewTimer) must be recorded after this entry: hold the
+			// history lock across the call.
+			e.mu.Lock()
+			defer e.mu.Unlock()
 			off, err := f()
+			if e.dead {
+				return off, err
+			}
 			cl := c03FinClass(err)
 			if cl == 0 {
 				ref, seed := b.inner.BlockIndexToBlockReference(abs - e.popCount)
-				e.mu.Lock()
-				cs := e.w.canon(seed)
-				e.mu.Unlock()
-				e.log(L(A(4), AI(k), A(0), A(off), AU(uint64(ref.EpochID)), AU(uint64(ref.BlocksFromLast)), AU(cs)))
+				e.hist = append(e.hist, L(A(4), AI(k), A(0), A(off), AU(uint64(ref.EpochID)), AU(uint64(ref.BlocksFromLast)), AU(e.w.canon(seed))))
 			} else {
-				e.log(L(A(4), AI(k), A(cl), A(int64(status.Code(err)))))
+				e.hist = append(e.hist, L(A(4), AI(k), A(cl), A(int64(status.Code(err)))))
 			}
 			return off, err
 		}
@@ -1429,7 +1434,7 @@ func (c03) Gen(r *Rand, i int, tier string) Sx {
 	if mutable {
 		nw = 1
 	}
-	spare := r.Intn(3)
+	spare := 1 + r.Intn(2)
 	cfg := L(AI(bs), AI(old), AI(cur), AI(nw), AB(mutable), AI(spare), AB(hier), AB(r.Chance(30)), AI(sector),
 		AI(r.Pick([]int{0, 4, 10})), AI(r.Pick([]int{3, 7})), AB(r.Chance(30)), AI(r.Pick([]int{61, 127, 251})))
 	nkeys := 5 + r.Intn(8)
